@@ -2,6 +2,8 @@ package batching
 
 import (
 	"context"
+
+	"reduction.dev/reduction/util/vhook"
 )
 
 type BatchFetcher[T, R any] func(ctx context.Context, events []T) ([]R, error)
@@ -77,6 +79,7 @@ func (d *ReorderFetcher[T, R]) flush(ctx context.Context, token BatchToken) {
 		return
 	}
 
+	vhook.At("batching.fetcher.between-flush-and-reserve", d)
 	seqNum := d.buffer.Reserve()
 	go func() {
 		result, err := d.fetchBatch(ctx, events)
